@@ -1,4 +1,8 @@
 """Per-harness options (solver schedule, axiom groups, stretch obligations, fixed validation vectors)."""
 OPTS = {
     'C02': {},
+    'C11': {
+        'c11_angle1': {'pi_symbolic': True}, 'c11_angle2': {'pi_symbolic': True}, 'c11_angle3': {'pi_symbolic': True},
+        'c11_angle4': {'pi_symbolic': True}, 'c11_angle_quat': {'pi_symbolic': True},
+    },
 }
